@@ -544,3 +544,14 @@ class NumProcesses(object):
         got = get_num_processes_to_launch(n)
         want = n if n >= 1 else (1 if n == 0 else max(1, multiprocessing.cpu_count() + 1 + n))
         return None if got == want else 'get_num_processes_to_launch(%d) = %r, expected %r' % (n, got, want)
+
+
+# internals of the overlap-coefficient and edit-distance joins and of the prefix filter stack
+OVJ = 'py_stringsimjoin.join.overlap_coefficient_join_py.'
+EDJ = 'py_stringsimjoin.join.edit_distance_join_py.'
+alias(OVJ + '_overlap_coefficient_join_split', OVJ + 'overlap_coefficient_join_py')
+alias(EDJ + '_edit_distance_join_split', EDJ + 'edit_distance_join_py')
+for _q in ('py_stringsimjoin.index.prefix_index.PrefixIndex.build', 'py_stringsimjoin.index.prefix_index.PrefixIndex.__init__',
+           'py_stringsimjoin.filter.prefix_filter.PrefixFilter.find_candidates',
+           'py_stringsimjoin.filter.prefix_filter.PrefixFilter.__init__'):
+    alias(_q, EDJ + 'edit_distance_join_py')
